@@ -11,17 +11,19 @@ Variable rules : key -> rule.
 Variable env : key -> N.
 Variable F : key -> N -> list value -> list N -> N -> N.
 Variable rank : key -> nat.
+Variable R : key -> N -> rule.
 Variable ord : key -> list rkind.
 Hypothesis Hrank : wf_rank rules rank.
 Hypothesis Hwfd : wf_disc rules.
+Hypothesis HRt : table_ok rules R.
 Hypothesis Hord : forall k, In RReq (ord k).
 Notation cvK := (cvK rules env F rank).
-Notation concl := (concl rules F).
-Notation rowok := (rowok rules F).
+Notation concl := (concl F R).
+Notation rowok := (rowok F R).
 Notation BT := (BT rules env F rank).
-Notation BC := (BC rules F).
-Notation BS := (BS rules env F rank).
-Notation BInv := (BInv rules env F rank).
+Notation BC := (BC rules F R).
+Notation BS := (BS rules env F rank R).
+Notation BInv := (BInv rules env F rank R).
 
 (* the scan request at the head of ruleInfosToScan is replaced by another request of the same rule *)
 Lemma BInv_replace_sreq root su su' rq rq' rest : BInv root None su -> sreq_scanning su -> is_toscan su = rq :: rest -> is_toscan su' = rq' :: rest ->
@@ -35,6 +37,7 @@ Lemma BInv_replace_sreq root su su' rq rq' rest : BInv root None su -> sreq_scan
 Proof.
   intros (HT & HC & HS) Hss Hq Hq' Hr RI Htk Hi Hf Hft Hu He Hpre Hso Hpd.
   assert (HR : forall k, res_of su' k = res_of su k) by (intros; unfold res_of; now rewrite RI).
+  assert (Hsgs : forall k, res_sig (res_of su' k) = res_sig (res_of su k)) by (intros k; now rewrite HR).
   assert (HK : forall k, kind_of su' k = kind_of su k) by (intros; unfold kind_of; now rewrite RI).
   assert (Hst : forall k, stored su' k = stored su k) by (intros k; unfold stored; now rewrite HR).
   assert (Hca : forall k, cAt su' k = cAt su k) by (intros k; unfold cAt; now rewrite HR).
@@ -50,21 +53,19 @@ Proof.
     right. right. right. exists t0, z. now rewrite <- Htask. }
   split; [|split].
   - apply (BT_rules_change rules env F rank root su su' HT); auto.
-    + intros k. now rewrite HR.
     + intros k H. now apply Hcu.
     + intros k H. left. now apply Hcu.
     + intros y H. now apply HU.
     + intros y H _. now apply HU.
     + rewrite Hi, (in_progress_of_kind su su' root (HK root)). destruct (b_root _ _ _ _ _ _ HT) as [H|[(k & H)|[H|H]]]; auto; [right; left; exists k; now rewrite RI|right; right; right; now apply Hcu].
-  - apply (BC_kinds rules F su su' HC); auto.
-    + intros k. now rewrite HR.
-    + intros k. rewrite RI. apply (b_nc _ _ _ HC).
+  - apply (BC_kinds rules F R su su' HC); auto.
+    + intros k. rewrite RI. apply (b_nc _ _ _ _ HC).
     + intros k. unfold idle. now rewrite HK.
     + intros k H. now apply Hcu.
     + intros k H. left. now rewrite (in_progress_of_kind su su' k (HK k)).
     + intros y (r & Hu' & H1' & H2'). left. exists r. split; [now apply HU|auto].
     + intros k. left. split; auto. intros H. now apply Hcu.
-  - apply (BS_kinds rules env F rank None None su su' HS); auto.
+  - apply (BS_kinds rules env F rank R None None su su' HS); auto.
     + intros k H. now apply Hcu.
     + intros y Hy. destruct (HSr y Hy) as [->|H]; [right|now left]. intros j d Hj. rewrite Hr, Hdp, Hca, Hba. intros Hn.
       destruct (Hpre j d Hj Hn) as [P1 P2]. split; auto. now apply Hcu.
@@ -90,6 +91,7 @@ Proof.
   assert (Hkd' : kd = KNeedsToRun \/ kd = KDoesNotNeedToRun) by (destruct Hkd as [H|[H _]]; auto).
   assert (HR : forall k', res_of s' k' = res_of su k').
   { intros k'. unfold res_of. rewrite RI. destruct (N.eqb k' k) eqn:E; auto. apply N.eqb_eq in E. now subst. }
+  assert (Hsgs : forall k', res_sig (res_of s' k') = res_sig (res_of su k')) by (intros k'; now rewrite HR).
   assert (HK : forall k', kind_of s' k' = if N.eqb k' k then kd else kind_of su k') by (intros k'; unfold kind_of; rewrite RI; now destruct (N.eqb k' k)).
   assert (HLo : forall k', k' <> k -> rinfo_of s' k' = rinfo_of su k') by (intros k' E; rewrite RI; apply N.eqb_neq in E; now rewrite E).
   assert (HLk : ri_paused (rinfo_of s' k) = [] /\ ri_deferred (rinfo_of s' k) = []) by (rewrite RI, N.eqb_refl; auto).
@@ -117,7 +119,6 @@ Proof.
   { intros k'. unfold is_in_progress. rewrite HK. destruct (N.eqb k' k) eqn:E; auto. apply N.eqb_eq in E. subst k'. rewrite Hk. destruct Hkd' as [-> | ->]; reflexivity. }
   split; [|split].
   - apply (BT_rules_change rules env F rank root su s' HT); auto.
-    + intros k'. now rewrite HR.
     + intros k' H. now apply Hcu.
     + intros k' H. left. now apply Hcu.
     + intros y H. now apply HU.
@@ -127,24 +128,23 @@ Proof.
       * assert (Hd : Unrouted su (dummy_root root)) by now right. apply HU in Hd. destruct Hd; auto.
       * right. right. left. now rewrite Hip.
       * right. right. right. now apply Hcu.
-  - apply (BC_kinds rules F su s' HC); auto.
-    + intros k'. now rewrite HR.
-    + intros k'. rewrite RI. destruct (N.eqb k' k); [cbn|]; apply (b_nc _ _ _ HC).
+  - apply (BC_kinds rules F R su s' HC); auto.
+    + intros k'. rewrite RI. destruct (N.eqb k' k); [cbn|]; apply (b_nc _ _ _ _ HC).
     + intros k'. unfold idle. rewrite HK. destruct (N.eqb k' k) eqn:E; auto. apply N.eqb_eq in E. subst k'. rewrite Hk. intros _. split; discriminate.
     + intros k' H. now apply Hcu.
     + intros k' H. left. now rewrite Hip.
     + intros y (r & Hu' & H1' & H2'). left. exists r. split; [now apply HU|auto].
     + intros k'. left. split; auto. intros H. now apply Hcu.
-  - apply (BS_kinds rules env F rank None None su s' HS); auto.
+  - apply (BS_kinds rules env F rank R None None su s' HS); auto.
     + intros k' H. now apply Hcu.
     + intros k'. rewrite HK. destruct (N.eqb k' k) eqn:E; [intros ->; destruct Hkd' as [H|H]; discriminate|]. apply N.eqb_neq in E. intros Hk'. left. split; auto. now rewrite (HLo k' E).
     + intros k'. rewrite HK. destruct (N.eqb k' k) eqn:E.
       * apply N.eqb_eq in E. subst k'. intros ->. right. destruct Hkd as [H|(_ & Hall)]; [discriminate|].
-        destruct (b_scanning _ _ _ _ _ _ HS k Hk) as (B1 & B2 & B3).
-        assert (Hrow : rowok su k) by (apply (b_rows _ _ _ HC); auto; [unfold idle; rewrite Hk; split; discriminate|intros [Hc' _]; congruence]).
-        destruct (row_clean rules env F rank Hrank Hwfd su k (b_cur _ _ _ _ _ _ HT) Hrow B2 Hall) as (v & Hv & Hcv & Hco).
-        split; [|split; [|split]].
-        -- exists v. split; [now rewrite Hst|]. split; auto. apply (concl_same rules F su s' k v (Hdp k)); auto.
+        destruct (b_scanning _ _ _ _ _ _ _ HS k Hk) as (B0 & B1 & B2 & B3).
+        assert (Hrow : rowok su k) by (apply (b_rows _ _ _ _ HC); auto; [unfold idle; rewrite Hk; split; discriminate|intros [Hc' _]; congruence]).
+        destruct (row_clean rules env F rank R Hrank Hwfd HRt su k (b_cur _ _ _ _ _ _ HT) B0 Hrow B2 Hall) as (v & Hv & Hcv & Hco).
+        split; [|split; [|split; [|split]]]; [| | | |now rewrite Hsgs].
+        -- exists v. split; [now rewrite Hst|]. split; auto. apply (concl_same F R su s' k v (Hsgs k) (Hdp k)); auto.
         -- intros d. rewrite Hdp. intros Hd. apply Hcu. now apply Hall.
         -- now rewrite Hba.
         -- destruct B3 as [B3|[B3|B3]]; [| |discriminate].
@@ -184,15 +184,15 @@ Proof.
   assert (HB1 : BInv root None (unpop [] [rq1] (touch s inp))).
   { apply (BInv_replace_sreq root (unpop [] [rq] s) _ rq rq1 (is_toscan s) HB Hss); unfold unpop; autorewrite with iv; auto.
     - intros k'. change (rinfo_of (upd_toscan (upd_inreq ?a _) _) k') with (rinfo_of a k'). apply rinfo_of_touch.
-    - intros j d0 Hj. rewrite Hidx in Hj. apply (b_scan _ _ _ _ _ _ (proj2 (proj2 HB)) rq Hhead j d0 Hj).
+    - intros j d0 Hj. rewrite Hidx in Hj. apply (b_scan _ _ _ _ _ _ _ (proj2 (proj2 HB)) rq Hhead j d0 Hj).
     - intros i d0 Hi. rewrite Hidx. change (deps (upd_toscan (upd_inreq s _) _) (sq_rule rq)) with (deps s (sq_rule rq)). unfold deps. rewrite Hnth. intros Hd0. inversion Hd0. subst d0.
       unfold rq1, fill_request in *. destruct (sq_input rq) as [i'|] eqn:Ei; [|reflexivity].
-      apply (b_sord _ _ _ _ _ _ (proj2 (proj2 HB)) rq Hhead i' d Ei). exact Hnth.
+      apply (b_sord _ _ _ _ _ _ _ (proj2 (proj2 HB)) rq Hhead i' d Ei). exact Hnth.
     - intros k' _ Hi. unfold rq1, fill_request. now rewrite Hi. }
   assert (Hok1 : Forall (sreq_ok (touch s inp)) [rq1]).
   { constructor; [|constructor]. apply (Inv_head_ok rules (cx_set_fs c0 [rq1]) (touch s inp) rq1 [] eq_refl HI1). }
   assert (Hpe1 : pending_for (unpop [] [rq1] (touch s inp)) inp) by (left; exists rq1; split; auto; now left).
-  destruct (BInv_scan_rule rules env F rank Hrank Hwfd root _ [] [rq1] (touch s inp) inp HI1 HB1 Hok1 Hpe1) as (b1 & s1 & E1 & HB2 & Hl1). rewrite E1.
+  destruct (BInv_scan_rule rules env F rank R Hrank Hwfd HRt root _ [] [rq1] (touch s inp) inp HI1 HB1 Hok1 Hpe1) as (b1 & s1 & E1 & HB2 & Hl1). rewrite E1.
   destruct (scan_rule_post rules env _ _ _ _ _ E1 HI1) as (HI2 & KS & Hf1 & Ht1).
   assert (Hok2 : Forall (sreq_ok s1) [rq1]).
   { constructor; [|constructor]. apply (Inv_head_ok rules (cx_set_fs c0 [rq1]) s1 rq1 [] eq_refl HI2). }
@@ -200,7 +200,7 @@ Proof.
   destruct b1.
   2:{ (* the input is being scanned: the request waits in its scan record *)
     pose proof (Hf1 eq_refl) as Hk1. unfold defer_on_rule. rewrite Hk1. cbn [kind_eqb check].
-    apply (BInv_moved rules env F rank root (Some inp) (unpop [] [rq1] s1) _ HB2 Hss2); unfold unpop; autorewrite with iv; auto.
+    apply (BInv_moved rules env F rank R root (Some inp) (unpop [] [rq1] s1) _ HB2 Hss2); unfold unpop; autorewrite with iv; auto.
     + intros k'. unfold res_of, kind_of. change (rinfo_of (upd_toscan (upd_inreq ?a _) _) k') with (rinfo_of a k'). rewrite rinfo_of_mod_ri.
       destruct (N.eqb k' inp) eqn:E; auto. apply N.eqb_eq in E. subst k'. auto.
     + intros t y Hy. exists y. split; auto.
@@ -223,7 +223,7 @@ Proof.
     rewrite (scanning_not_scanned s1 inp Hk1) in Ht1. discriminate. }
   assert (Hr1 : rinfo_of s1 k = rinfo_of s k).
   { destruct KS as (KS1 & _). rewrite (KS1 k); [apply rinfo_of_touch|auto]. }
-  destruct (BInv_demand_rule rules env F rank ord Hord root _ [] [rq1] s1 inp HI2 HB2 Hok2 Ht1) as (b2 & s2 & E2 & H2). rewrite E2.
+  destruct (BInv_demand_rule rules env F rank R ord HRt Hord root _ [] [rq1] s1 inp HI2 HB2 Hok2 Ht1) as (b2 & s2 & E2 & H2). rewrite E2.
   destruct (demand_rule_post rules ord _ _ _ _ _ E2 HI2 Hex Ht1) as (HI3 & KD & Hf2 & Ht2).
   destruct (H2 (proj1 HI3)) as (HB3 & Hav & Hnav).
   assert (Hok3 : Forall (sreq_ok s2) [rq1]).
@@ -233,7 +233,7 @@ Proof.
   2:{ (* the input is being built: the request waits in its task record *)
     destruct (aget (is_tasks s2) inp) as [ti|] eqn:Hg; [|now contradiction (Hf2 eq_refl)].
     unfold defer_on_task. rewrite (mod_ti_some _ _ _ _ Hg).
-    apply (BInv_moved rules env F rank root None (unpop [] [rq1] s2) _ HB3 Hss3); unfold unpop; autorewrite with iv; auto.
+    apply (BInv_moved rules env F rank R root None (unpop [] [rq1] s2) _ HB3 Hss3); unfold unpop; autorewrite with iv; auto.
     + intros t y Hy. unfold task_of in *. autorewrite with iv in *. rewrite aget_aset. destruct (N.eqb t inp) eqn:E; [|eauto].
       apply N.eqb_eq in E. subst t. rewrite Hg in Hy. inversion Hy. subst y. eexists. split; [reflexivity|reflexivity].
     + intros t z Hz. unfold task_of in *. autorewrite with iv in *. rewrite aget_aset in Hz. destruct (N.eqb t inp) eqn:E; [|eauto].
@@ -255,9 +255,9 @@ Proof.
   assert (Hnth2 : nth_error (deps su2 k) (sq_index rq1) = Some d) by (rewrite Hdeps2, Hidx; exact Hnth).
   assert (Hhead2 : Sreq su2 rq1) by (left; now left).
   destruct HB3 as (HT3 & HC3 & HS3). pose proof (conj HT3 (conj HC3 HS3)) as HB3.
-  assert (Hord1 : sq_order rq1 = d_order d) by (apply (b_sord _ _ _ _ _ _ HS3 rq1 Hhead2 inp d Hin1); rewrite Hrq1; exact Hnth2).
+  assert (Hord1 : sq_order rq1 = d_order d) by (apply (b_sord _ _ _ _ _ _ _ HS3 rq1 Hhead2 inp d Hin1); rewrite Hrq1; exact Hnth2).
   assert (Hpre : forall j d0, (j < sq_index rq1)%nat -> nth_error (deps su2 k) j = Some d0 -> curk su2 (d_key d0) /\ (d_order d0 = false -> cAt su2 (d_key d0) <= bAt su2 k)).
-  { intros j d0 Hj Hn. pose proof (b_scan _ _ _ _ _ _ HS3 rq1 Hhead2 j d0 Hj) as H. rewrite Hrq1 in H. now apply H. }
+  { intros j d0 Hj Hn. pose proof (b_scan _ _ _ _ _ _ _ HS3 rq1 Hhead2 j d0 Hj) as H. rewrite Hrq1 in H. now apply H. }
   assert (Hndn : forall k', kind_of su2 k' = KDoesNotNeedToRun -> sq_input rq1 <> Some k').
   { intros k' Hk' Hi. rewrite Hin1 in Hi. inversion Hi. subst k'. destruct Hcur as [Hc _]. change (kind_of su2 inp) with (kind_of s2 inp) in Hk'. congruence. }
   pose proof HI3 as (_ & _ & HII3 & HSS3).
@@ -305,7 +305,7 @@ Proof.
   pose proof (Inv_head_ok rules (cx_set_fs ctx0 (rq :: cx_fs ctx0)) (upd_toscan s rest) rq (cx_fs ctx0) eq_refl HI1) as (Hk & _).
   unfold process_scan_request. rewrite Hk. cbn [kind_eqb negb].
   apply (BInv_scan_inputs root ctx0); auto.
-  apply (BInv_frame rules env F rank root None s); auto; unfold unpop; autorewrite with iv; auto.
+  apply (BInv_frame rules env F rank R root None s); auto; unfold unpop; autorewrite with iv; auto.
   now apply (Inv_sreq_scanning rules ctx0).
 Qed.
 End Inc.
